@@ -3,6 +3,7 @@ package tubes
 import (
 	"encoding/binary"
 	"io"
+	"math"
 	"net"
 	"sync"
 	"sync/atomic"
@@ -11,6 +12,7 @@ import (
 	"github.com/sirupsen/logrus"
 
 	"hop.computer/hop/common"
+	"hop.computer/hop/transport"
 )
 
 // TubeType represents identifier bytes of Tubes.
@@ -546,6 +548,9 @@ func (r *Reliable) Write(b []byte) (n int, err error) {
 func (r *Reliable) WriteMsgUDP(b, oob []byte, addr *net.UDPAddr) (n, oobn int, err error) {
 	// This function can skip checking r.tubeState because r.Write() will do that
 	length := len(b)
+	if length > math.MaxUint16 {
+		return 0, 0, transport.ErrBufOverflow
+	}
 	h := make([]byte, 2)
 	binary.BigEndian.PutUint16(h, uint16(length))
 	_, e := r.Write(append(h, b...))
